@@ -290,6 +290,41 @@ def run_encoders(ck):
                             "the same family is served inside every Write / before every received chunk is copied (GOMAXPROCS 1: pooled streams are reused); "
                             "non-trivial = >=2 series, >=3 rows, >=2 batches (row encoders), >=2 series or points (Prometheus), >=2 items (list and "
                             "splicing endpoints); distinct by kind+body. ")
+    # distribution of the numbers the printers of model/GoFloat.v were compared on
+    import math
+    fcls, tcls = {}, {}
+    def bump(d, k):
+        d[k] = d.get(k, 0) + 1
+    for c in cases:
+        if c["kind"] not in ("matrix", "vector", "numfmt", "prommatrix", "promvector", "promscalar"):
+            continue
+        for b in c["batches"] or []:
+            for e in b or []:
+                try:
+                    x = float(e.get("v") or "0")
+                except ValueError:
+                    x = float("nan")
+                if math.isnan(x):
+                    k = "NaN"
+                elif math.isinf(x):
+                    k = "Inf"
+                elif x == 0:
+                    k = "-0" if math.copysign(1, x) < 0 else "0"
+                elif abs(x) < 2.2250738585072014e-308:
+                    k = "denormal"
+                elif abs(x) < 1e-6:
+                    k = "below 1e-6"
+                elif abs(x) >= 1e21:
+                    k = "from 1e21"
+                elif x == int(x):
+                    k = "integral"
+                else:
+                    k = "%d significant digits" % len(repr(abs(x)).replace(".", "").lstrip("0").split("e")[0].rstrip("0"))
+                bump(fcls, k)
+                t = e["ts"]
+                bump(tcls, "0" if t == 0 else "negative" if t < 0 else "beyond 2^53" if t >= 1 << 53 and c["kind"].startswith("prom") else
+                     "int64 extreme" if t > 5 * 10 ** 18 else "ms aligned" if t % 1000000 == 0 else "sub-ms")
+    ck.extra["number_distribution"] = {"float64 values": fcls, "timestamps": tcls}
     ck.extra["input_classes"] = hist
     ck.extra["input_distribution"] = {"kinds": kinds, "classes": hist}
     ck.extra["go_rows_checked"] = sum(1 for c in ok_cases if c["gorows"] == "ok")
